@@ -438,6 +438,12 @@ func (x *Exec) loadPtr(st *State, p PtrV, t types.Type) Value {
 		}
 		v := x.unflatten(ft, &ts)
 		x.assumeRanges(st, v, ft)
+		// a package-level error variable initialised by errors.New / fmt.Errorf in its package's init
+		// keeps a non-nil value (assumption: nobody assigns nil to io.EOF and its like)
+		if iv, isI := v.(IfaceV); isI && len(p.Path) == 0 && x.w.errorGlobal(p.Global) {
+			x.hyps = append(x.hyps, x.c.Neq(iv.Tag, x.c.Int(0)))
+			x.ledger["package-level error variables initialised by errors.New/fmt.Errorf are assumed to stay non-nil ("+p.Global.Pkg.Pkg.Name()+"."+p.Global.Name()+")"] = true
+		}
 		return v
 	}
 	panic(unsupported("load through pointer kind %d", p.Kind))
